@@ -160,3 +160,45 @@ def r_dedup_sorted(cx):
                   "non-neighbouring duplicates (order=1,2,1) go unnoticed" % name, cx.where(t["span"]))
     cx.ob("R-DEDUP-SORTED", "scan", fns > 0, "%d library functions scanned, %d dedup call(s)" % (fns, n), "src/")
     cx.count("R-DEDUP-SORTED", "functions_scanned", fns)
+
+
+LAST_OCCURRENCE = ("rsplit", "rsplit_once", "rsplitn", "rfind", "rsplit_terminator", "rmatches", "rmatch_indices", "rposition")
+
+
+@rule("R-COMMENT-FIRST", ["C16", "C15", "C20"])
+def r_comment_first(cx):
+    """A `#` starts a comment that runs to the end of the line - from the *first* `#` on. Wherever the text front ends
+    (definition tokenizer, PROJ translator, Gravsoft reader, kp's argument reader) look for the comment character, they
+    use a first-occurrence primitive (`split('#')` + first piece, `find`, `split_once`, `starts_with`); none hands `#`
+    to a last-occurrence primitive (rsplit_once, rfind, ...), which would keep `a # b` of the line `a # b # c`."""
+    n = sites = 0
+    scope = {"C16": ("token::", "<T as token::", "op::raw_parameters", "context::"), "C15": ("grid::",), "C20": ()}[cx.pid]
+    for where_, fns in (("lib", cx.f.lib["fns"]), ("kp", cx.f.kp["fns"] if cx.pid == "C20" else {})):
+        for name in sorted(fns):
+            if "::tests" in name:
+                continue
+            if where_ == "lib" and not name.startswith(scope):
+                continue
+            try:
+                f = cx.f.fn(name, where_)
+            except Exception:
+                continue
+            for bb, t in f.calls():
+                a = f.arg_terms(bb)
+                hashy = False
+                for x in a[1:2]:
+                    x = mir.strip_refs(x)
+                    if x[0] == "const" and x[2] in (("char", "#"), ("str", "#")):
+                        hashy = True
+                if not hashy:
+                    continue
+                sites += 1
+                tail = (f.callee(t) or "").rsplit("::", 1)[-1]
+                if tail in LAST_OCCURRENCE:
+                    n += 1
+                    cx.ob("R-COMMENT-FIRST", "%s/%s" % (name, tail), False,
+                          "%s looks for the comment character with `%s`: the line is cut at its last `#`, and the words "
+                          "between the first and the last `#` are read as data" % (name, tail), cx.where(t["span"]))
+    cx.ob("R-COMMENT-FIRST", "scan", sites > 0 and n == 0,
+          "%d call(s) handling the comment character `#`, none by a last-occurrence primitive" % sites, "src/")
+    cx.count("R-COMMENT-FIRST", "comment_sites", sites)
